@@ -15,6 +15,9 @@ Scenario :  <jump 0|1> <n> desc*n op*
             4 / 5 MemoryLeakDetector::allocMemory/deallocMemory called directly with allocatNodesSeperately = false / true
   The detector starts as its constructor leaves it: period disabled, stage 0, type checking on.
   addr   :  slot*0x1200 + offset (64 slots); 0x48000+k = a stack object / a static object / a foreign heap block
+Second kind (sizes at the edges, coq/C06_Edge.v):  :E <jump> <n> desc*n (:A form al addr size | :F form al addr|~ | :r al addr|~ newaddr size | :t 0|1)*
+  addr = 0x10000000 + k*0x1200000 (k < 4; + offset for :F / :r), size = any size_t; observation per :A/:F/:r
+  | callbacks category nfreed (addr surviving-user-bytes offset-of-the-first)* outstanding-total result-non-NULL
 Observation: per :f/:r   | callbacks category nfreed (addr $bytes-seen-by-free_memory|~)* outstanding-total result-non-NULL
   category: 0 none, 1 deallocating non-allocated memory, 2 allocation/deallocation type mismatch, 3 memory corruption, 9 other text."""
 import vlib
@@ -55,14 +58,28 @@ RULE = ("(a) guard sweep: block sizes 0..64, 255, 256, 4095 x every guard positi
         "checking on/off (quick: half of the product, full for the nothrow forms; thorough: all), allocator objects of both sides "
         "varied (wrappers, equal names), thirteen blocks of thirteen forms alive at once released in rotated order, random histories "
         "with forms and switches mixed in; every scenario runs in a fresh process image, so the pointers start as their static "
-        "initialisers leave them.  non-trivial = at least one release of a non-NULL address")
+        "initialisers leave them; (h) SIZES AT THE EDGES (second scenario kind ':E', four big arena slots of 18 MiB): one block of 1 MiB - 1, "
+        "1 MiB, 1 MiB + 1, 1 MiB + 4 KiB, 2 MiB, 16 MiB (thorough: 14 more sizes, 4401 .. 16 MiB + 4 KiB, and random ones) through each of the "
+        "12 releasing forms after an allocating form of the same family (thorough: every one), after realloc, realloc(NULL) and calloc, "
+        "released through the wrong family with type checking on / off and a returning / non-returning callback, released twice -- the "
+        "allocator's free_memory walks over ALL user bytes of the block it is handed (count and first offset of the bytes that still hold "
+        "what the program wrote); requests of SIZE_MAX, -1, -8, -65, -75, -76, -201, SIZE_MAX/2 (thorough: 12 more, on both sides of "
+        "SIZE_MAX - 75 = the room bound, 2^32 .. 2^63) through 11 allocating forms (NULL / bad_alloc, no report, the slot stays free) and "
+        "through realloc of an outstanding block of 0, 1, 8, 100 bytes followed by {paired release + second release, ordinary realloc + "
+        "release, wrongly paired release, a second refused realloc with another block alive, realloc(NULL, huge), type checking off}; "
+        "random histories over the four slots mixing small, large and impossible sizes (at most two large blocks per scenario).  "
+        "non-trivial = at least one release of a non-NULL address (edge kind: at least one allocation, realloc or such a release)")
 ASSUMPTIONS = ["the releasing allocator object is alive (a destroyed allocator makes deallocMemory skip every check: static destruction order escape hatch)",
                "the underlying allocator hands out regions that do not overlap live blocks (arena slots); writes of the user program stay "
                "inside one outstanding block: user bytes, guard bytes, first padding byte",
                "family = name() of actualAllocator() (anchor 'compared by name through actualAllocator()'); allocator names contain no NUL",
                "a MemoryLeakAllocator is used the way SimpleString uses it (its alloc_memory/free_memory called directly), not installed as "
                "current allocator of new/delete/malloc (that would track every block twice)",
-               "cpputest_realloc succeeds at the platform level (failures are property C05)",
+               "cpputest_realloc succeeds at the platform level (failures are property C05) -- except in the edge-size scenarios, where a request "
+               "that cannot be granted (no room for the accounting information, or larger than any arena block) is made for NULL or for an "
+               "outstanding, correctly paired block with intact guard: it must come back NULL without a report and release nothing",
+               "edge-size scenarios: blocks live in four slots of 18 MiB, sizes are <= 16 MiB + 4 KiB or >= 2^32 (what lies between may or may not "
+               "be granted by an allocator); sizeof(MemoryLeakDetectorNode) = 64; strdup / strndup are not used for large blocks",
                "heap poisoning compiled in (CPPUTEST_DISABLE_HEAP_POISON not defined: it removes the clause by configuration)",
                "an operator new / delete / malloc-family entry point is judged only while the new/delete overloads are installed (by the "
                "documented meaning of turnOff / turnOnDefaultNotThreadSafe / turnOnThreadSafe / saveAndDisable / restoreNewDeleteOverloads); with the "
@@ -93,7 +110,11 @@ LEVEL_TEXT = ("Machine-checked (Coq) theorems over an executable model of Memory
               "differential run through every real global operator new/new[]/delete/delete[] form, cpputest_malloc/calloc/strdup/strndup/"
               "free/realloc and MemoryLeakAllocator, in a fresh process image per scenario under the real overload switches, on a private "
               "detector left in exactly the period/stage the scenario's history puts it in (fresh = disabled), with the extracted spec judging "
-              "the implementation; guard pattern, guard size and poison byte are re-read from the source.")
+              "the implementation; guard pattern, guard size and poison byte are re-read from the source. "
+              "Sizes at the edges (second scenario kind, same detector model with sizes as unbounded N and user bytes as runs): the room test is "
+              "the translated sizeLeavesRoomForAccountingInformation (C06_room_test_is_the_source); a refused request changes nothing; a realloc "
+              "that is not granted keeps the record and every later release is judged as before; every user byte of a block of any size is "
+              "poison at free_memory; observed on blocks up to 16 MiB + 4 KiB through every releasing form and on requests up to SIZE_MAX.")
 LEVEL_NOTE = ("Modelled, not verified: the C++ itself. Outside the model: a destroyed releasing allocator (hasBeenDestroyed skips all checks), "
               "SimpleStringCacheAllocator as a callable wrapper (only its actualAllocator() body is pinned by the translator), the locking of the thread-safe "
               "entry points (they are driven single-threaded; locking is C10), deallocAllMemoryInCurrentAllocationStage (C04), "
@@ -815,6 +836,379 @@ def gen_random(tier, rng, out, count):
         out.append(unparse(int(jump), DS, ops))
 
 
+# ============================================================================= second scenario kind: sizes at the edges (coq/C06_Edge.v)
+# :E <jump> <n> desc*n (:A form al addr size | :F form al addr|~ | :r al addr|~ newaddr size | :t 0|1)*
+BIGBASE, BIGSLOT, NBIG, BIGMAX = 0x10000000, 0x1200000, 4, 0x1001000
+SIZE_MAX = 2 ** 64 - 1
+ROOM = SIZE_MAX - (G + 8 + 64)            # only steers the generator: the model takes the bound from its own definition, tied to the source
+MIB = 1 << 20
+BIG_SIZES = [MIB - 1, MIB, MIB + 1, MIB + 4096, 2 * MIB, 16 * MIB]
+MORE_BIG_SIZES = [65535, 65536, 65537, 4401, 4608, MIB // 2 + 3, 2 * MIB - 1, 2 * MIB + 1, 3 * MIB + 7, 4 * MIB, 8 * MIB + 1, 16 * MIB - 1, 16 * MIB + 1, BIGMAX]
+TOP_SIZES = [SIZE_MAX, SIZE_MAX - 1, SIZE_MAX - 8, SIZE_MAX - 65, SIZE_MAX - 75, SIZE_MAX - 76, SIZE_MAX - 201, SIZE_MAX // 2]
+MORE_TOP_SIZES = [SIZE_MAX - 74, SIZE_MAX - 7, SIZE_MAX - 64, SIZE_MAX - 77, SIZE_MAX - 4096, SIZE_MAX // 2 + 1, 2 ** 63 - 1, SIZE_MAX // 4, 2 ** 32, 2 ** 32 + 1, 2 ** 40, 2 ** 48 + 5]
+E_AFORMS = list(range(11))                # strdup / strndup cannot make a block of a chosen huge size
+
+
+def is_edge(s):
+    return s.startswith(":E ")
+
+
+def bslot(k):
+    return BIGBASE + k * BIGSLOT
+
+
+def eparse(s):
+    t = s.split()
+    assert t[0] == ":E"
+    jump = int(t[1], 16)
+    nd = int(t[2], 16)
+    i = 3
+    ds = []
+    for _ in range(nd):
+        if t[i] == ":p":
+            ds.append(("p", bytes.fromhex(t[i + 1][1:])))
+        else:
+            ds.append((t[i][1:], int(t[i + 1], 16)))
+        i += 2
+    ops = []
+    ar = {":A": 4, ":F": 3, ":r": 4, ":t": 1}
+    while i < len(t):
+        k = ar[t[i]]
+        ops.append(t[i:i + 1 + k])
+        i += 1 + k
+    return jump, ds, ops
+
+
+def eunparse(jump, ds, ops):
+    return ":E " + unparse(jump, ds, ops)
+
+
+def emk(jump, ops):
+    return eunparse(jump, DS, ops)
+
+
+def granted(n):
+    return n <= ROOM and n <= BIGMAX
+
+
+class ESim(Sim):
+    """textbook bookkeeping of the edge kind: which blocks are outstanding, what each item is expected to show"""
+
+    def esize_ok(self, n):
+        return 0 <= n <= SIZE_MAX and (n <= BIGMAX or n >= 2 ** 32)
+
+    def eaddr_ok(self, a):
+        return BIGBASE <= a < BIGBASE + NBIG * BIGSLOT and (a - BIGBASE) % BIGSLOT == 0
+
+    def eptr_ok(self, p):
+        return p is None or BIGBASE <= p < BIGBASE + NBIG * BIGSLOT
+
+    def eapply(self, o):
+        """-> (category, result non-NULL | None)"""
+        k = o[0]
+        if k == ":A":
+            f, al, a, n = int(o[1], 16), int(o[2], 16), int(o[3], 16), int(o[4], 16)
+            assert f in E_AFORMS and self.alloc_ok(AFORM_FAM[f], al) and self.eaddr_ok(a) and self.esize_ok(n) and a not in self.blocks, o
+            if granted(n):
+                self.blocks[a] = [n, self.fam(AFORM_FAM[f], al), list(PAT)]
+            return (0, granted(n))
+        if k == ":F":
+            f, al, p = int(o[1], 16), int(o[2], 16), optp(o[3])
+            assert 0 <= f < len(RFORM_FAM) and self.alloc_ok(RFORM_FAM[f], al) and self.eptr_ok(p), o
+            c = self.expect(self.fam(RFORM_FAM[f], al), p)
+            if p is not None:
+                self.blocks.pop(p, None)
+            return (c, False)
+        if k == ":r":
+            al, p, na, n = int(o[1], 16), optp(o[2]), int(o[3], 16), int(o[4], 16)
+            assert self.alloc_ok(2, al) and self.eptr_ok(p) and self.eaddr_ok(na) and self.esize_ok(n), o
+            c = self.expect(self.fam(2, al), p)
+            rest = dict(self.blocks)
+            if p is not None:
+                rest.pop(p, None)
+            assert na not in rest, o
+            if not granted(n):
+                assert c == 0, "a request that cannot be granted is made for NULL or a correctly paired outstanding block"
+                return (0, False)
+            self.blocks = rest
+            created = c == 0 or (c in (2, 3) and not self.jump)
+            if created:
+                self.blocks[na] = [n, self.fam(2, al), list(PAT)]
+            return (c, created)
+        if k == ":t":
+            self.tc = o[1] != "0"
+            return None
+        raise ValueError(k)
+
+
+def eexpected(s):
+    try:
+        jump, ds, ops = eparse(s)
+        sim = ESim(jump, ds)
+        return [c for c in (sim.eapply(o) for o in ops) if c is not None]
+    except (AssertionError, IndexError, KeyError, ValueError):
+        return None
+
+
+AFORMS_OF_FAM = {0: [0, 1, 2, 3], 1: [4, 5, 6, 7], 2: [8, 9, 10]}
+
+
+def gen_edge(tier, rng, out):
+    thorough = tier != "quick"
+    sizes = BIG_SIZES + (MORE_BIG_SIZES if thorough else [])
+    n = 0
+    # (1) one large block through every releasing form, allocated through a form of the same family (rotating), also after realloc
+    #     and realloc(NULL); every 5th with the failure callback not returning; then the stale second release
+    for si, size in enumerate(sizes):
+        for rf in range(12):
+            fam = RFORM_FAM[rf]
+            afs = AFORMS_OF_FAM[fam]
+            for af in (afs if thorough else [afs[(si + rf) % len(afs)]]):
+                k = n % NBIG
+                n += 1
+                ops = [AF(af, fam, bslot(k), size), FF(rf, fam, bslot(k))]
+                if n % 3 == 0:
+                    ops.append(FF(rf, fam, bslot(k)))
+                out.append(emk(int(n % 5 == 0), ops))
+        for how in range(3):
+            k = n % NBIG
+            n += 1
+            k2 = (k + 1) % NBIG
+            if how == 0:
+                ops = [AF(8, 2, bslot(k), 3), R(2, bslot(k), bslot(k2), size), FF(10, 2, bslot(k2))]
+            elif how == 1:
+                ops = [R(2, None, bslot(k2), size), FF(11, 2, bslot(k2))]
+            else:
+                ops = [AF(10, 2, bslot(k), size), R(2, bslot(k), bslot(k), 8), FF(10, 2, bslot(k))]
+            out.append(emk(0, ops))
+    # (2) a large block released through the wrong family (type checking on / off), through a wrapper, with the callback returning or not:
+    #     the block still comes back poisoned when the callback returns
+    for si, size in enumerate(sizes if thorough else sizes[2:5]):
+        for rf in range(12):
+            for tc in (1, 0):
+                fam = (RFORM_FAM[rf] + 1 + si % 2) % 3
+                af = AFORMS_OF_FAM[fam][(si + rf) % len(AFORMS_OF_FAM[fam])]
+                al_a = [fam, fam + 3][rf % 2]
+                k = n % NBIG
+                n += 1
+                ops = ([T(0)] if not tc else []) + [AF(af, al_a, bslot(k), size), FF(rf, RFORM_FAM[rf], bslot(k)), FF(rf, RFORM_FAM[rf], bslot(k))]
+                out.append(emk(int(n % 2), ops))
+    # (3) requests at the top of size_t: refused, no report, nothing changes; the slot is free for the next request
+    tops = TOP_SIZES + (MORE_TOP_SIZES if thorough else [])
+    olds = [0, 1, 8, 100] + ([4400, MIB + 1] if thorough else [])
+    for ti, top in enumerate(tops):
+        for af in E_AFORMS:
+            fam = AFORM_FAM[af]
+            k = n % NBIG
+            n += 1
+            ops = [AF(af, fam, bslot(k), top), AF(af, fam, bslot(k), olds[n % len(olds)]), FF(PLAIN_RFORM[fam], fam, bslot(k))]
+            out.append(emk(int(n % 4 == 0), ops))
+        # realloc of an outstanding block to a size that cannot exist: NULL, no report, the block stays outstanding --
+        # its paired release is silent, a second one is not; a wrongly paired one is a mismatch; an ordinary realloc still works
+        for oi, old in enumerate(olds):
+            for how in range(6):
+                if not thorough and (ti + oi + how) % 2 and top not in (SIZE_MAX, SIZE_MAX - 75, SIZE_MAX - 76):
+                    continue
+                k = n % NBIG
+                n += 1
+                k2, k3 = (k + 1) % NBIG, (k + 2) % NBIG
+                al = [2, 5][n % 2]
+                pre = [AF([8, 9, 10][n % 3], 2, bslot(k), old), R(al, bslot(k), bslot(k2), top)]
+                if how == 0:
+                    ops = pre + [FF(10, 2, bslot(k)), FF(10, 2, bslot(k))]
+                elif how == 1:
+                    ops = pre + [R(2, bslot(k), bslot(k2), 2 * old + 1), FF(11, 2, bslot(k2))]
+                elif how == 2:
+                    ops = pre + [FF([0, 5][n % 2], [0, 1][n % 2], bslot(k)), FF(10, 2, bslot(k))]
+                elif how == 3:
+                    ops = [AF(4, 1, bslot(k3), 7)] + pre + [R(2, bslot(k), bslot(k2), tops[(ti + 1) % len(tops)]), FF(10, 2, bslot(k)), FF(5, 1, bslot(k3))]
+                elif how == 4:
+                    ops = [R(2, None, bslot(k), top), R(2, None, bslot(k), old), R(2, bslot(k), bslot(k2), top), FF(10, 2, bslot(k))]
+                else:
+                    ops = [T(0)] + pre + [FF(0, 0, bslot(k)), FF(0, 0, bslot(k))]
+                out.append(emk(int(n % 3 == 0), ops))
+    # (4) random histories over the four big slots: small, large and impossible sizes mixed, at most two large blocks per scenario
+    count = 150 if not thorough else 6000
+    for _ in range(count):
+        sim = ESim(rng.random() < 0.3, DS)
+        ops = []
+        large = 0
+        for _ in range(rng.randint(3, 14)):
+            live = sorted(sim.blocks)
+            free_slots = [bslot(k) for k in range(NBIG) if bslot(k) not in sim.blocks]
+            r = rng.random()
+
+            def pick_size():
+                nonlocal large
+                q = rng.random()
+                if q < 0.3:
+                    return rng.choice(TOP_SIZES + MORE_TOP_SIZES)
+                if q < 0.5 and large < 2:
+                    large += 1
+                    return rng.choice(BIG_SIZES + MORE_BIG_SIZES) if rng.random() < 0.7 else rng.randint(4401, BIGMAX)
+                return rng.choice([0, 1, 2, 7, 8, 64, 255, 4096, 4400])
+            o = None
+            if r < 0.3 and free_slots:
+                af = rng.choice(E_AFORMS)
+                al = rng.choice([AFORM_FAM[af], AFORM_FAM[af] + 3])
+                o = AF(af, al, rng.choice(free_slots), pick_size())
+            elif r < 0.6:
+                rf = rng.randrange(12)
+                q = rng.random()
+                if live and q < 0.7:
+                    a = rng.choice(live)
+                    if rng.random() < 0.7:
+                        fam_names = [N_NEW, N_ARR, N_MAL]
+                        want = fam_names.index(sim.blocks[a][1]) if sim.blocks[a][1] in fam_names else RFORM_FAM[rf]
+                        rf = rng.choice(RELEASE_OF_FAM[want])
+                    p = a
+                elif q < 0.8:
+                    p = None
+                elif q < 0.9:
+                    p = bslot(rng.randrange(NBIG))
+                else:
+                    p = bslot(rng.randrange(NBIG)) + rng.choice([1, 8, 4096, MIB])
+                o = FF(rf, RFORM_FAM[rf], p)
+            elif r < 0.92:
+                size = pick_size()
+                p = rng.choice(live + [None]) if live else None
+                rest = [bslot(k) for k in range(NBIG) if bslot(k) not in sim.blocks or bslot(k) == p]
+                if rest:
+                    o = R(rng.choice([2, 5]), p, rng.choice(rest), size)
+            else:
+                o = T(rng.random() < 0.5)
+            if o is None:
+                continue
+            trial = ESim(sim.jump, DS)
+            trial.blocks = {a: [b[0], b[1], list(b[2])] for a, b in sim.blocks.items()}
+            trial.tc = sim.tc
+            try:
+                trial.eapply(o)
+            except (AssertionError, IndexError, KeyError, ValueError):
+                continue
+            sim.eapply(o)
+            ops.append(o)
+        if ops:
+            out.append(emk(int(sim.jump), ops))
+
+
+def eclassify(s):
+    jump, ds, ops = eparse(s)
+    lab = set(["kind:edge-sizes", "callback:" + ("longjmp" if jump else "returns")])
+    ex = eexpected(s) or []
+    items = [o for o in ops if o[0] != ":t"]
+    sim_blocks = {}
+    for o, (c, res) in zip(items, ex):
+        if o[0] == ":A":
+            n = int(o[4], 16)
+            lab.add("edge-alloc:%s:%s" % (AFORM_NAMES[int(o[1], 16)], size_class(n)))
+            if res:
+                sim_blocks[int(o[3], 16)] = (n, AFORM_NAMES[int(o[1], 16)])
+        elif o[0] == ":F":
+            p = optp(o[3])
+            lab.add("expect:" + {0: "silent", 1: "non-allocated", 2: "mismatch", 3: "corruption"}[c])
+            if p in sim_blocks:
+                lab.add("edge-release:%s:%s" % (RFORM_NAMES[int(o[1], 16)], size_class(sim_blocks[p][0])))
+                if sim_blocks[p][0] > MAXSIZE:
+                    lab.add("edge-release-large:%d-bytes:%s" % (sim_blocks[p][0], RFORM_NAMES[int(o[1], 16)]))
+                sim_blocks.pop(p)
+            elif p is not None:
+                lab.add("edge-release:not-outstanding")
+        elif o[0] == ":r":
+            n, p = int(o[4], 16), optp(o[2])
+            lab.add("edge-realloc:%s:%s:%s" % ("NULL" if p is None else "outstanding" if p in sim_blocks else "not-outstanding", size_class(n),
+                                                "granted" if res else "refused-or-stopped"))
+            if not granted(n):
+                lab.add("edge-refused-realloc:size_max-%d" % (SIZE_MAX - n) if SIZE_MAX - n <= 4096 else "edge-refused-realloc:huge")
+            if res or c != 0:
+                sim_blocks.pop(p, None)
+            if res:
+                sim_blocks[int(o[3], 16)] = (n, "realloc")
+    return sorted(lab)
+
+
+def size_class(n):
+    if n > ROOM:
+        return "no-room(size_max-%d)" % (SIZE_MAX - n) if SIZE_MAX - n <= 80 else "no-room"
+    if n > BIGMAX:
+        return "room-but-no-memory" + ("(size_max-%d)" % (SIZE_MAX - n) if SIZE_MAX - n <= 80 else "")
+    if n > MAXSIZE:
+        return ">1MiB" if n > MIB else "1MiB" if n == MIB else "4401..1MiB"
+    return "small"
+
+
+def eobs_items(obs):
+    t = obs.split()
+    i, items = 0, []
+    try:
+        while i < len(t):
+            assert t[i] == "|"
+            calls, cat, nf = int(t[i + 1], 16), int(t[i + 2], 16), int(t[i + 3], 16)
+            i += 4
+            fr = []
+            for _ in range(nf):
+                fr.append((int(t[i], 16), int(t[i + 1], 16), int(t[i + 2], 16)))
+                i += 3
+            items.append((calls, cat, fr, int(t[i], 16), t[i + 1]))
+            i += 2
+    except (AssertionError, IndexError, ValueError):
+        return None
+    return items
+
+
+def esignature(s, obs):
+    if obs.startswith("!"):
+        return "edge:crash:" + obs.split("@")[0].strip().replace(" ", "_")[:60]
+    ex, it = eexpected(s), eobs_items(obs)
+    if ex is None or it is None or len(ex) != len(it):
+        return "edge:shape"
+    _, _, ops = eparse(s)
+    items = [o for o in ops if o[0] != ":t"]
+    for o, (c, res), x in zip(items, ex, it):
+        how = "realloc" if o[0] == ":r" else AFORM_NAMES[int(o[1], 16)] if o[0] == ":A" else RFORM_NAMES[int(o[1], 16)]
+        if x[1] != c or x[0] != (1 if c else 0):
+            return "edge:category:%s:expected=%d:got=%d/%d" % (how, c, x[1], x[0])
+        if any(left for _, left, _ in x[2]):
+            return "edge:poison:" + how
+        if o[0] != ":F" and (x[4] == "1") != bool(res):
+            return "edge:result:" + how
+    return "edge:total-or-other"
+
+
+def eshrink(s):
+    jump, ds, ops = eparse(s)
+    c = prune_descs(jump, ds, ops)
+    if c:
+        yield ":E " + c
+    for i in range(len(ops)):
+        yield eunparse(jump, ds, ops[:i] + ops[i + 1:])
+    if jump:
+        yield eunparse(0, ds, ops)
+    for i, o in enumerate(ops):
+        if o[0] == ":A" and int(o[1], 16) not in PLAIN_AFORM:
+            yield eunparse(jump, ds, ops[:i] + [[":A", "%x" % PLAIN_AFORM[AFORM_FAM[int(o[1], 16)]]] + o[2:]] + ops[i + 1:])
+        if o[0] == ":F" and int(o[1], 16) not in PLAIN_RFORM:
+            yield eunparse(jump, ds, ops[:i] + [[":F", "%x" % PLAIN_RFORM[RFORM_FAM[int(o[1], 16)]]] + o[2:]] + ops[i + 1:])
+    # sizes towards the nearest landmark below: the smallest size that still shows the failure is the interesting one
+    marks = [0, 1, 8, MAXSIZE, 65536, MIB - 1, MIB, MIB + 1, 2 * MIB, BIGMAX, 2 ** 32, SIZE_MAX // 2, ROOM - 1, ROOM, ROOM + 1, SIZE_MAX - 1]
+    for i, o in enumerate(ops):
+        if o[0] in (":A", ":r"):
+            n = int(o[4], 16)
+            for m in marks:
+                if m < n:
+                    yield eunparse(jump, ds, ops[:i] + [o[:4] + ["%x" % m]] + ops[i + 1:])
+            if n > 1 and n - 1 not in marks:
+                yield eunparse(jump, ds, ops[:i] + [o[:4] + ["%x" % (n - 1)]] + ops[i + 1:])
+    for i, o in enumerate(ops):
+        k = 2 if o[0] in (":A", ":F") else 1 if o[0] == ":r" else None
+        if k is not None:
+            al = int(o[k], 16)
+            if al < len(ds) and ds[al][0] == "k":
+                o2 = list(o)
+                o2[k] = "%x" % ds[al][1]
+                yield eunparse(jump, ds, ops[:i] + [o2] + ops[i + 1:])
+
+
 def generate(tier, rng):
     out = []
     gen_guard(tier, rng, out)
@@ -825,17 +1219,23 @@ def generate(tier, rng):
     gen_env(tier, rng, out)
     gen_forms(tier, rng, out)
     gen_random(tier, rng, out, 400 if tier == "quick" else 50000)
-    bad = [s for s in out if expected(s) is None]
+    gen_edge(tier, rng, out)
+    bad = [s for s in out if (eexpected(s) if is_edge(s) else expected(s)) is None]
     assert not bad, "generator produced an invalid scenario: " + bad[0]
     return out
 
 
 def nontrivial(s):
+    if is_edge(s):
+        _, _, ops = eparse(s)
+        return any(o[0] in (":A", ":r") or (o[0] == ":F" and o[3] != "~") for o in ops)
     _, _, ops = parse(s)
     return any(o[0] in (":f", ":F", ":r") and (o[3] if o[0] != ":r" else o[2]) != "~" for o in ops)
 
 
 def classify(s):
+    if is_edge(s):
+        return eclassify(s)
     jump, ds, ops = parse(s)
     lab = set(["callback:" + ("longjmp" if jump else "returns")])
     ex = expected(s) or []
@@ -915,6 +1315,8 @@ def obs_items(obs):
 
 
 def signature(s, obs):
+    if is_edge(s):
+        return esignature(s, obs)
     if obs.startswith("!"):
         return "crash:" + obs.split("@")[0].strip().replace(" ", "_")[:60]
     ex, it = expected(s), obs_items(obs)
@@ -962,6 +1364,9 @@ def prune_descs(jump, ds, ops):
 
 
 def shrink(s):
+    if is_edge(s):
+        yield from eshrink(s)
+        return
     jump, ds, ops = parse(s)
     c = prune_descs(jump, ds, ops)
     if c:
